@@ -9,7 +9,7 @@
    `reach udp prog ncalls sched` is the state after `sched` from the initial state.
    Partial: Go scheduler / memory model, kernel sockets and promptness are runtime residue. *)
 From Coq Require Import List Bool Arith NArith String.
-From Verif.Model Require Import LockTab Conc ConcExporter.
+From Verif.Model Require Import LockTab WaitTab Conc ConcExporter.
 From Verif.Gen Require Import Locks.
 From Verif.Proofs Require Import Conc_lemmas ConcExporter_lemmas ConcExporter_progress C14_lemmas.
 Import ListNotations.
@@ -103,6 +103,32 @@ Theorem C14_race_free : forall tr,
     t1 <> t2 -> racy a b = true -> ordered_between t1 t2 p2.
 Proof. exact exp_race_free. Qed.
 Print Assumptions C14_race_free.
+
+(* "Closing ... stops all background work, and no byte is written afterwards", for EVERY
+   CloseConnToCollector call. Code side (regenerated table, Gen/Locks.v exporter_closers /
+   exporter_spawns, tools/cmd/gensyntax/locks_wait.go): every exported function that closes the
+   stop channel reaches each of its exits (every return statement, the end of the body) only
+   after wg.Wait(), and every goroutine of the package is counted by wg (Add before the go
+   statement, deferred Done) - an early `return` without the Wait, a dropped Wait, a dropped
+   Add/Done break this obligation. *)
+Theorem C14_wait_discipline : wait_discipline exporter_f_wg exporter_closers exporter_spawns = true.
+Proof. exact exp_wait_discipline. Qed.
+Print Assumptions C14_wait_discipline.
+(* Model side, for every schedule: whenever any CloseConnToCollector call - first, repeated or
+   concurrent, by the application or by any other goroutine - is about to return, wg = 0 and the
+   refresher and the connection checker have terminated; in every continuation they stay
+   terminated and put nothing on the wire any more *)
+Theorem C14_close_returns_quiescent : forall udp prog n sched t s2,
+  let x := reach udp prog n sched in
+  close_returning x t ->
+  wg (sh x) = 0 /\ refr (xrun x s2) = RDone /\ chk (xrun x s2) = KDone /\
+  filter (from 1) (wire (sh (xrun x s2))) = filter (from 1) (wire (sh x)) /\
+  filter (from 2) (wire (sh (xrun x s2))) = filter (from 2) (wire (sh x)).
+Proof. exact exp_close_returns_quiescent. Qed.
+Print Assumptions C14_close_returns_quiescent.
+(* not vacuous: in the example run two closers are about to return from wg.Wait at step 50 *)
+Example C14_close_returning_nonvacuous : close_returning ex_closing 3 /\ close_returning ex_closing 4.
+Proof. exact ex_closing_returning. Qed.
 
 (* ---- non-vacuity: a concrete interleaved run with a refresh round, racing closers, a failing
    sanity check and a send after close ---- *)
